@@ -151,3 +151,81 @@ Proof.
   assert (X0u : Rabs x0 * uu <= 1.002 * M * uu) by nra.
   split; nra.
 Qed.
+
+(** ** pingpong under rounding: upper - |wrapped(x, upper + upper) - upper|, every step rounded:
+    within 20u(|x| + upper) of the triangle wave of period 2*upper at x, and in [0, upper] up to the same error *)
+Definition C17_float_pingpong_stmt : Prop :=
+  forall k a, let x := a 0%nat in let u := a 1%nat in 0 < u ->
+    let S := Rabs x + u in
+    exists r (kz : Z),
+      run (Rfl_ops k) (noF 0) a p_f_pingpong = Ret ([], [r]) /\
+      Rabs (r - (u - Rabs (x - IZR kz * (2 * u) - u))) <= 20 * uu * S /\
+      - (30 * uu * S) <= r <= u + 30 * uu * S.
+
+Lemma C17_float_pingpong : C17_float_pingpong_stmt.
+Proof.
+  intros k a x u Hu S. pose proof uu_small as Hs. pose proof (Rabs_pos x) as Px.
+  set (U2 := rnd (u + u)). assert (HU2 : 0 < U2) by (apply rnd_pos; lra).
+  set (w := wrap_fl x U2). set (t := rnd (w - u)).
+  exists (rnd (u - Rabs t)), (wrap_k x U2).
+  split.
+  { unfold p_f_pingpong, t, w, wrap_fl, U2.
+    cbv [run den_nodes den_tree den_cond den_node den_atom p_nodes p_tree nth app map Rfl_ops R_ops cstq named_of op1_of op2_of ltb].
+    rewrite (proj2 (Rltb_true 0 (a 1%nat))) by (fold u; lra).
+    rewrite (proj2 (Rltb_true 0 (rnd (a 1%nat + a 1%nat)))) by (fold u U2; exact HU2).
+    reflexivity. }
+  assert (HS : 0 < S) by (unfold S; lra).
+  destruct (rnd_rel (u + u)) as (db & Hb & Eb). fold U2 in Eb.
+  destruct (wrap_core x U2 HU2) as ((R0a & R0b) & E1 & (Wa & Wb)). cbv zeta in *.
+  set (K := IZR (wrap_k x U2)) in *. fold w in E1, Wa, Wb. set (R0 := x - K * U2) in *.
+  destruct (rnd_rel (w - u)) as (dc & Hc & Ec). fold t in Ec.
+  destruct (rnd_rel (u - Rabs t)) as (dd & Hd & Ed). rewrite Ed.
+  destruct (Rabs_bounds _ _ Hb) as (B1 & B2). destruct (Rabs_bounds _ _ Hc) as (C1 & C2). destruct (Rabs_bounds _ _ Hd) as (D1 & D2).
+  assert (UU : 2 * u * (1 - uu) <= U2 <= 2 * u * (1 + uu)) by (rewrite Eb; split; nra).
+  assert (S1 : Rabs x + U2 <= 2.01 * S) by (unfold S; nra).
+  assert (E1' : Rabs (w - R0) <= 6.03 * uu * S) by (eapply Rle_trans; [ exact E1 | nra ]).
+  assert (AR0 : Rabs R0 <= 2.02 * S) by (apply Rabs_le; unfold S; split; nra).
+  assert (Aw : Rabs w <= 2.03 * S) by (apply Rabs_le; unfold S; split; nra).
+  (* K*2u from K*U2 *)
+  set (KP := K * (2 * u)). assert (EKR : K * U2 = KP * (1 + db)) by (unfold KP; rewrite Eb; ring).
+  assert (AKR : Rabs (K * U2) <= 3.03 * S).
+  { replace (K * U2) with (x - R0) by (unfold R0; ring). eapply Rle_trans; [ apply Rabs_le_sub; [ apply Rle_refl | exact AR0 ] | unfold S; nra ]. }
+  assert (AKP : Rabs KP <= 3.04 * S).
+  { assert (H1 : Rabs (K * U2) = Rabs KP * Rabs (1 + db)) by (rewrite EKR; apply Rabs_mult).
+    assert (H2 : 0.999 <= Rabs (1 + db)) by (rewrite Rabs_pos_eq; lra).
+    pose proof (Rabs_pos KP). nra. }
+  assert (AKPb : Rabs (KP * db) <= 3.04 * S * uu) by (apply Rabs_le_mul; assumption).
+  set (T := x - KP).
+  assert (Dw : w - T = (w - R0) - KP * db) by (unfold T, R0; rewrite EKR; ring).
+  assert (Mw : Rabs (w - T) <= 9.1 * uu * S).
+  { rewrite Dw. eapply Rle_trans; [ apply Rabs_le_sub; [ exact E1' | exact AKPb ] | nra ]. }
+  (* t against T - u *)
+  assert (Awu : Rabs (w - u) <= 3.03 * S) by (eapply Rle_trans; [ apply Rabs_le_sub; [ exact Aw | apply Rle_refl ] | rewrite (Rabs_pos_eq u) by lra; unfold S; nra ]).
+  assert (Mt : Rabs (t - (T - u)) <= 12.2 * uu * S).
+  { rewrite Ec. replace ((w - u) * (1 + dc) - (T - u)) with ((w - T) + (w - u) * dc) by ring.
+    eapply Rle_trans; [ apply Rabs_le_add; [ exact Mw | apply Rabs_le_mul; [ exact Awu | exact Hc ] ] | nra ]. }
+  assert (Mabs : Rabs (Rabs t - Rabs (T - u)) <= 12.2 * uu * S) by (eapply Rle_trans; [ apply Rabs_triang_inv2 | exact Mt ]).
+  assert (At : Rabs t <= 3.04 * S).
+  { rewrite Ec. eapply Rle_trans; [ apply Rabs_le_mul; [ exact Awu | apply Rabs_le_1p; exact Hc ] | nra ]. }
+  assert (Aut : Rabs (u - Rabs t) <= 4.04 * S).
+  { eapply Rle_trans; [ apply Rabs_le_sub; [ apply Rle_refl | rewrite Rabs_Rabsolu; exact At ] | rewrite (Rabs_pos_eq u) by lra; unfold S; nra ]. }
+  set (V := u - Rabs (T - u)).
+  assert (Tot : Rabs ((u - Rabs t) * (1 + dd) - V) <= 20 * uu * S).
+  { replace ((u - Rabs t) * (1 + dd) - V) with (- (Rabs t - Rabs (T - u)) + (u - Rabs t) * dd) by (unfold V; ring).
+    eapply Rle_trans; [ apply Rabs_le_add; [ rewrite Rabs_Ropp; exact Mabs | apply Rabs_le_mul; [ exact Aut | exact Hd ] ] | nra ]. }
+  split; [ unfold V, T, KP, K in Tot; exact Tot | ].
+  (* range of the exact triangle value: T is within a few ulps of [0, 2u] *)
+  assert (Tr : - (4.1 * uu * S) <= T <= 2 * u + 6.1 * uu * S).
+  { destruct (Rabs_bounds _ _ AKPb) as (Q1 & Q2).
+    assert (T = R0 + KP * db) by (unfold T, R0; rewrite EKR; ring).
+    assert (Rabs x * uu <= S * uu) by (unfold S; nra).
+    assert (U2 <= 2 * u + 2 * (S * uu)) by (unfold S; nra).
+    assert (0 <= S * uu) by nra.
+    split; lra. }
+  assert (Vr : - (6.1 * uu * S) <= V <= u).
+  { unfold V. pose proof (Rabs_pos (T - u)). assert (0 <= uu * S) by nra. split; [ | lra ].
+    assert (Rabs (T - u) <= u + 6.1 * uu * S) by (apply Rabs_le; split; lra). lra. }
+  destruct (Rabs_bounds _ _ Tot) as (G1 & G2).
+  assert (0 <= uu * S) by nra.
+  split; lra.
+Qed.
